@@ -395,6 +395,11 @@ if w.ndim == 2:
         for t in range(m_):
             lane = w0[t, :] if axis % 2 == 1 else w0[:, t]; got = out[t, :] if axis % 2 == 1 else out[:, t]
             if not np.allclose(got, np.roll(lane, shifts[t]), atol=1e-4): bad.append(('per trace', shifts, t))
+            try:
+                single = f.fshift(lane.copy(), int(shifts[t]))          # the same trace on its own (1-D call after the 2-D ones)
+                if single.shape != lane.shape or not np.allclose(single, got, atol=1e-4): bad.append(('trace alone differs', shifts, t))
+            except Exception as e:
+                reproduced(f'fshift of a 1-D trace of {{lane.shape[0]}} samples after a 2-D call raised {{type(e).__name__}}: {{e}}')
 print(bad[:5])
 if bad: reproduced(str(bad[:5]))
 not_reproduced()
